@@ -234,6 +234,17 @@ def compare_adj(resps, Fkj, Bjk):
     return None
 
 
+def check_full(r, Md, Mod):
+    p = r.split()
+    if p[0] != 'ok':
+        return 'model: ' + r
+    if any(0 < Fraction(x) < Fraction(1, 10 ** 9) for x in p[3:5]):
+        return 'boundary'
+    if p[1] == ('1' if Mod == Md else '0') and int(p[2]) == Md:
+        return None
+    return 'full-grid decision: implementation M=%d Mo=%d, model %s' % (Md, Mod, r)
+
+
 def run(ctx):
     ctx.rule = ('the C01 generator (grid pairs, fields, configurations; see evidence/C01.json) with half of the FFT-family cases forced to a full '
                 '(fov = 1) pair and more single-pixel / edge-concentrated fields. For every applicable implementation: adjointness of '
@@ -244,7 +255,7 @@ def run(ctx):
     ctx.assumptions += ['numpy/scipy fftn/ifftn compute the DFT / inverse DFT with 1/M normalisation', 'BLAS gemm computes matrix products',
                         'the weights reported by the grids are the weights the property refers to']
     thorough = ctx.tier == 'thorough'
-    n = ctx.scale(80, 1100)
+    n = ctx.scale(400, 3000)
     cases = [dict(c) for c in c01.DIRECTED]
     for c in c01.DIRECTED[:4]:
         c2 = dict(c)
@@ -270,8 +281,7 @@ def run(ctx):
             for d in range(len(case['N'])):
                 Md = int(ft.internal_shape[::-1][d])
                 Mod = int(ft.shape_out[::-1][d])
-                checks.append((len(lines), 0, (lambda r, Md=Md, Mod=Mod: None if r == 'ok %d %d' % (1 if Mod == Md else 0, Md)
-                                               else 'full-grid decision: implementation M=%d Mo=%d, model %s' % (Md, Mod, r)), case, 'full'))
+                checks.append((len(lines), 0, (lambda r, Md=Md, Mod=Mod: check_full(r, Md, Mod)), case, 'full'))
                 lines.append('C02 full %d %s %s' % (case['N'][d], rat(case['q'][d]), rat(case['fov'][d])))
             if int(np.prod(ft.internal_shape)) <= (400000 if thorough else 60000):
                 for ls, Fkj, Bjk, cfg, j, k in adj_requests(case, ft):
@@ -281,7 +291,9 @@ def run(ctx):
     for start, cnt, chk, case, stream in checks:
         detail = chk(out[start]) if cnt == 0 else chk(out[start:start + cnt])
         ctx.traces_validated += 1
-        if detail is not None:
+        if detail == 'boundary':
+            ctx.boundary_skipped += 1
+        elif detail is not None:
             ctx.disagree('C02 ' + stream, {'case': case, 'detail': detail})
 
 
